@@ -19,6 +19,7 @@ type C03Case struct {
 	Kind   string  `json:"kind"`
 	FIFO   bool    `json:"fifo"`
 	CapArg int     `json:"caparg"` // >0 capacity; 0 => And(0); -1 => And() ; < -1 => And(negative)
+	Amb    int     `json:"amb,omitempty"`
 	Policy bool    `json:"policy,omitempty"` // an accept-everything push policy is installed (capacity must be enforced all the same)
 	Ops    []C03Op `json:"ops"`
 }
@@ -93,6 +94,7 @@ func runC03(c C03Case) (st Stats, err error) {
 		if c.Policy {
 			s.SetPushPolicy(func(...any) error { return nil })
 		}
+		ApplyAmbient(s, c.Amb&^AmbPushOK)
 	}); p != "" {
 		return st, violf("setup/panic", "setup panicked: %s", p)
 	}
@@ -314,6 +316,7 @@ func genC03(t *rapid.T, tier Tier) C03Case {
 		}
 	}
 	c.Policy = rapid.IntRange(0, 3).Draw(t, "policy?") == 0
+	c.Amb = drawAmbient(t, false)
 	ops := []string{"push", "push", "fill", "fill", "insert", "insert", "pop", "pop", "remove", "reset", "transfer", "marshal", "replace", "reverse"}
 	n := rapid.IntRange(1, maxOps).Draw(t, "nops")
 	k := c.CapArg
